@@ -50,6 +50,11 @@ NPQ_KERNELS = [
     # ExpandedScaffers_F6.Scaffes_F6: the pair function on the two columns of an (n, 2) array; `np.sin(np.sqrt(s)) ** 2` is the function
     # parameter `sn2 s`. The quotient of two vectors is taken entrywise in the field (a zero denominator would be inf/nan in floats and 0 in
     # Lean; the denominator here is (1 + 0.001 s)² with s a sum of squares, which C20_src_scaffer_pair does not need to know)
+    # TestShiftedFunction.shift / __call__ (every shifted CEC2005 problem goes through them): the first D entries of the shift table are
+    # subtracted from every row (x read as a 2-D population), the base function `self.f` is the function parameter `f`, the bias is added
+    dict(name="Bench_Shifted_shift", file=B, cls="TestShiftedFunction", func="shift", shifted=True, ret="Q", self_attrs=[("x_shift", "VQ")]),
+    dict(name="Bench_Shifted_call", file=B, cls="TestShiftedFunction", func="__call__", shifted_call=True, ret="VQ",
+         self_attrs=[("x_shift", "VQ"), ("fbias", "S1")]),
     dict(name="Bench_ScafferPair", file=B, cls="ExpandedScaffers_F6", func="Scaffes_F6", scaffer=True, ret="VQ"),
     # jDE's parameter regeneration (C15): which entries are redrawn (the mask of the first draw against the rate) and from what
     # (the second draw, affinely mapped for F); `uniform(0, 1, size=n)` is the function parameter `draw <ordinal> n`
@@ -533,6 +538,36 @@ class TrQ:
             if (ka, kb) != ("VQ", "S1"):
                 raise NotRecognised("< operand kinds")
             return f"(NpQ.ltMask {a} {b})", "MB"
+        if self.cfg.get("shifted"):
+            # shape = M.shape ; axis = [1] * (len(shape) - 1) + [-1]  (= [1, -1] for the 2-D M) ; M - self.x_shift[: shape[-1]].reshape(axis)
+            if isinstance(e, ast.Attribute) and e.attr == "shape" and isinstance(e.value, ast.Name) and self.env.get(e.value.id) == "Q":
+                return e.value.id, "SHAPE"
+            if isinstance(e, ast.BinOp) and isinstance(e.op, ast.Add) and ast.unparse(e.right) == "[-1]" and isinstance(e.left, ast.BinOp) \
+                    and isinstance(e.left.op, ast.Mult) and ast.unparse(e.left.left) == "[1]" and ast.unparse(e.left.right).startswith("len(") \
+                    and ast.unparse(e.left.right).endswith(") - 1") and self.env.get(ast.unparse(e.left.right)[4:-5]) == "SHAPE":
+                return self.sqi_of[ast.unparse(e.left.right)[4:-5]], "ROWAXIS"
+            if isinstance(e, ast.BinOp) and isinstance(e.op, ast.Sub) and isinstance(e.left, ast.Name) and self.env.get(e.left.id) == "Q" \
+                    and isinstance(e.right, ast.Call) and isinstance(e.right.func, ast.Attribute) and e.right.func.attr == "reshape" \
+                    and len(e.right.args) == 1 and not e.right.keywords and isinstance(e.right.args[0], ast.Name) \
+                    and self.env.get(e.right.args[0].id) == "ROWAXIS" and self.sqi_of.get(e.right.args[0].id) == e.left.id:
+                sub = e.right.func.value
+                if not (isinstance(sub, ast.Subscript) and isinstance(sub.slice, ast.Slice) and sub.slice.lower is None and sub.slice.step is None
+                        and sub.slice.upper is not None and ast.unparse(sub.slice.upper).endswith("[-1]")
+                        and self.env.get(ast.unparse(sub.slice.upper)[:-4]) == "SHAPE" and self.sqi_of.get(ast.unparse(sub.slice.upper)[:-4]) == e.left.id):
+                    raise NotRecognised("shift slice " + ast.unparse(sub))
+                v, k = self.E(sub.value)
+                if k != "VQ":
+                    raise NotRecognised("shift table kind")
+                return self.bind(f"NpQ.subRow {e.left.id} ({v}.take {e.left.id}.ncols)"), "Q"
+        if self.cfg.get("shifted_call"):
+            if isinstance(e, ast.Call) and isinstance(e.func, ast.Attribute) and isinstance(e.func.value, ast.Name) and e.func.value.id == "self" \
+                    and e.func.attr in ("shift", "f") and len(e.args) == 1 and not e.keywords:
+                x, k = self.E(e.args[0])
+                if k != "Q":
+                    raise NotRecognised("operand of self." + e.func.attr)
+                if e.func.attr == "shift":
+                    return self.bind(f"Bench_Shifted_shift selfx_shift {x}"), "Q"
+                return self.bind(f"f {x}"), "VQ"
         if self.cfg.get("scaffer"):
             # M[:, j] for a literal column j
             if isinstance(e, ast.Subscript) and isinstance(e.value, ast.Name) and self.env.get(e.value.id) == "Q" and isinstance(e.slice, ast.Tuple) \
@@ -854,6 +889,10 @@ class TrQ:
                     self.lines.append(f"  let py_{st.targets[0].id} : Rat := {x}")
                 self.env[st.targets[0].id] = "S1" if k == "S" else k
                 continue
+            if k in ("SHAPE", "ROWAXIS"):
+                self.sqi_of[st.targets[0].id] = x
+                self.env[st.targets[0].id] = k
+                continue
             if k in ("IDX1", "DIM"):
                 self.sqi_of[st.targets[0].id] = x
                 self.env[st.targets[0].id] = k
@@ -872,14 +911,14 @@ class TrQ:
             raise NotRecognised("returned kind")
         self.lines.append(f"  return {x}")
         lean_k = {"Q": "NpQ.Mat", "VQ": "List Rat", "N": "Nat", "S1": "Rat"}
-        params = ([f"({cfg['cos2pi']} : Rat → Rat)"] if cfg.get("cos2pi") else []) + ([f"({cfg['cos_sqrt_idx']} : Nat → Rat → Rat)"] if cfg.get("cos_sqrt_idx") else []) + ([f"({cfg['cond_weights']} : Nat → Nat → Rat)"] if cfg.get("cond_weights") else []) + (["(expo sqrtf cs : Rat → Rat)"] if cfg.get("ackley") else []) + (["(sn2 : Rat → Rat)"] if cfg.get("scaffer") else []) + (["(draw : Nat → Nat → List Rat)"] if self.draws else []) \
+        params = ([f"({cfg['cos2pi']} : Rat → Rat)"] if cfg.get("cos2pi") else []) + ([f"({cfg['cos_sqrt_idx']} : Nat → Rat → Rat)"] if cfg.get("cos_sqrt_idx") else []) + ([f"({cfg['cond_weights']} : Nat → Nat → Rat)"] if cfg.get("cond_weights") else []) + (["(expo sqrtf cs : Rat → Rat)"] if cfg.get("ackley") else []) + (["(sn2 : Rat → Rat)"] if cfg.get("scaffer") else []) + (["(f : NpQ.Mat → Option (List Rat))"] if cfg.get("shifted_call") else []) + (["(draw : Nat → Nat → List Rat)"] if self.draws else []) \
             + [f"(self{a} : {lean_k[k_]})" for a, k_ in cfg.get("self_attrs", [])] + [f"({p} : {lean_k[k_]})" for p, k_ in plist]
         cls_txt = (cfg["cls"] + ".") if cfg["cls"] else ""
-        ret_ty = "Rat" if cfg.get("ret") == "S1" else "List Rat"
+        ret_ty = "Rat" if cfg.get("ret") == "S1" else "NpQ.Mat" if cfg.get("ret") == "Q" else "List Rat"
         if cfg.get("ret") == "VQ" and k != "VQ":
             raise NotRecognised("returned kind")
         return ("/- GENERATED by harness/extract/np2lean.py from src/thefittest/" + cfg["file"] + f" ({cls_txt}{cfg['func']}) — do not edit -/\n"
-                + "import TFV.Model.NpQ\nnamespace TFV.Generated.Src\nopen TFV\n\n"
+                + "import TFV.Model.NpQ\n" + ("import TFV.Generated.Src.Bench_Shifted_shift\n" if cfg.get("shifted_call") else "") + "namespace TFV.Generated.Src\nopen TFV\n\n"
                 + f"def {cfg['name']} " + " ".join(params) + f" : Option ({ret_ty}) := do\n" + "\n".join(self.lines) + "\n\nend TFV.Generated.Src\n")
 
 
